@@ -607,7 +607,7 @@ class Scripted(BaseStrategy):
         try:
             for a in actions:
                 if a["op"] == "txn":
-                    with market.transaction() as t:
+                    with market.transaction(async_place_orders=bool(a.get("async"))) as t:
                         for b in a["actions"]:
                             if b["op"] == "execute":
                                 t.execute()
